@@ -51,7 +51,7 @@ def main():
     meta['ran'].append('clean tree: ' + demo_cmd + ' -> ' + str(m))
     os.remove(demo_dst)
     # apply
-    rc, o = sh('git apply %s' % patch, cwd=WT)
+    rc, o = sh('git apply %s || git apply --3way %s' % (patch, patch), cwd=WT)
     meta['steps']['apply'] = {'ok': rc == 0, 'out': o[-500:]}
     if rc != 0:
         json.dump(meta, open(os.path.join(out, 'meta.json'), 'w'), indent=1)
